@@ -438,9 +438,21 @@ func (db *RockDB) HDel(ts int64, key []byte, args ...[]byte) (int64, error) {
 
 	var num int64 = 0
 	var newNum int64 = -1
+	var handled map[string]struct{}
+	if len(args) > 1 {
+		handled = make(map[string]struct{}, len(args))
+	}
 	for i := 0; i < len(args); i++ {
 		if err := common.CheckKeySubKey(rk, args[i]); err != nil {
 			return 0, err
+		}
+		if handled != nil {
+			// a field repeated in one call is deleted (and counted) once,
+			// the lookup below only sees committed data
+			if _, ok := handled[string(args[i])]; ok {
+				continue
+			}
+			handled[string(args[i])] = struct{}{}
 		}
 
 		ek = hEncodeHashKey(table, rk, args[i])
